@@ -410,8 +410,10 @@ func Run(tier string, seed int64, outDir string) *common.Meta {
 		return o, ok
 	})
 
-	// CLI: permuted and split package arguments
+	// CLI: permuted and split package arguments; twin packages (same file names, same text) alone vs together
+	curTier = tier
 	cliStream(meta, tier, seed, s1)
+	twinStream(meta, tier, seed, outDir, s1, s2)
 
 	// go/analysis front-end: histories of passes (runs last: the analyzer rewrites the registered parameter cells)
 	analyzerStream(meta, tier, seed, fset, s1, infos, fresh)
@@ -560,9 +562,27 @@ func genHistory(rng *rand.Rand, pkgs []*fw.Pkg, n int) []*fw.File {
 
 // ---- CLI stream ----
 
+// cliTimeout is the wall-clock limit of one CLI run. It is generous (a normal run takes a few seconds) and a run that
+// exceeds it is retried once and then only NOTED: termination is C01's subject, and a limit hit because the machine is
+// loaded says nothing about history independence.
+func cliTimeout(tier string) time.Duration {
+	if tier == "thorough" {
+		return 20 * time.Minute
+	}
+	return 8 * time.Minute
+}
+
+var curTier = "quick"
+
 func runCLI(dir string, pkgArgs []string) (lines []string, code int, err error) {
 	args := append([]string{"check", "-enableAll"}, pkgArgs...)
-	out, code, err := common.Run(180*time.Second, dir, common.GoEnv(), filepath.Join(common.BinDir(), "go-critic"), args...)
+	var out string
+	for attempt := 0; attempt < 2; attempt++ {
+		out, code, err = common.Run(cliTimeout(curTier), dir, common.GoEnv(), filepath.Join(common.BinDir(), "go-critic"), args...)
+		if err == nil {
+			break
+		}
+	}
 	if err != nil {
 		return nil, code, err
 	}
@@ -598,8 +618,12 @@ func cliStream(meta *common.Meta, tier string, seed int64, s1 []*fw.Pkg) {
 		}
 		base, code0, err := runCLI(common.RepoDir, args)
 		runs++
-		if err != nil || (code0 != 0 && code0 != 1) {
-			meta.Fail("C03/cli/run", fmt.Sprintf("go-critic check did not finish normally: exit=%d err=%v", code0, err), args)
+		if err != nil {
+			meta.Notes = append(meta.Notes, fmt.Sprintf("CLI stage: go-critic check %v did not finish within the wall-clock limit twice (machine load? not a verdict of this property): %v", args, err))
+			continue
+		}
+		if code0 != 0 && code0 != 1 {
+			meta.Fail("C03/cli/run", fmt.Sprintf("go-critic check did not finish normally: exit=%d", code0), args)
 			continue
 		}
 		sortedBase := append([]string(nil), base...)
@@ -619,16 +643,18 @@ func cliStream(meta *common.Meta, tier string, seed int64, s1 []*fw.Pkg) {
 		// split into groups (separate processes), union of outputs
 		cut1 := 1 + rng.Intn(len(p2)-1)
 		var union []string
+		incomplete := false
 		for _, grp := range [][]string{p2[:cut1], p2[cut1:]} {
 			got, _, err := runCLI(common.RepoDir, grp)
 			runs++
 			if err != nil {
-				meta.Fail("C03/cli/run", "go-critic check did not finish: "+err.Error(), grp)
+				meta.Notes = append(meta.Notes, fmt.Sprintf("CLI stage: go-critic check %v did not finish within the wall-clock limit twice (not a verdict): %v", grp, err))
+				incomplete = true
 			}
 			union = append(union, got...)
 		}
 		sort.Strings(union)
-		if strings.Join(union, "\n") != strings.Join(sortedBase, "\n") {
+		if !incomplete && strings.Join(union, "\n") != strings.Join(sortedBase, "\n") {
 			meta.Fail("C03/cli/argument-grouping", "sorted output changes when the package arguments are split over two runs", map[string]interface{}{"args": args, "groups": [][]string{p2[:cut1], p2[cut1:]}, "diff": diffLines(sortedBase, union)})
 		}
 		if r == 0 {
